@@ -329,7 +329,7 @@ def full_run(case, files, sb, workdir, out):
 def world_task(seed, idx, tier, batch):
     workdir = os.path.join(batch, "w%d" % idx)
     case = gen_case(seed, idx)
-    full = (idx % 6 == 0) if tier == "quick" else (idx % 2 == 0)
+    full = (idx % 4 == 0) if tier == "quick" else (idx % 2 == 0)
     r = evaluate(case, seed, workdir, n_orders=4 if tier == "quick" else 8, n_torn=6 if tier == "quick" else 14, full=full)
     r["idx"] = idx
     r["sample"] = {"page_files": sorted(k for k in layout(case) if k.startswith("p/pages"))[:40], "missing_ordered": case["missing_ordered"]}
